@@ -98,6 +98,7 @@ type Tr struct {
 	trusted  map[string]bool // assumed contracts / library models used
 	unsupported []string
 	specDefs map[string]*specDef
+	pseudoArgs []ssa.Value
 	onlyInstrs map[ssa.Instruction]bool // when set: translate only these (plus control flow)
 }
 
